@@ -35,11 +35,13 @@ namespace detail {
             ::vrt::Fiber& f = ::vrt::me();
             core.owner = f.id; f.held++; core.excl_acqs++;
             f.clock.join(core.L); f.clock.join(core.Lr);
+            if (::vrt::rt().acquire_hook) ::vrt::rt().acquire_hook(&core, f.id, false);
         }
         void acquire_shared() {
             ::vrt::Fiber& f = ::vrt::me();
             core.nshared++; core.shared_by[f.id]++; f.held++; core.shared_acqs++;
             f.clock.join(core.L);
+            if (::vrt::rt().acquire_hook) ::vrt::rt().acquire_hook(&core, f.id, true);
         }
         void lock() {
             if (!::vrt::rt().cur) return;
